@@ -10,6 +10,126 @@ fn arg(args: &[String], name: &str) -> Option<String> {
     args.iter().position(|a| a == name).and_then(|i| args.get(i + 1).cloned())
 }
 
+/// Long-lived reader threads (and rayon's persistent pool) keep reading one arena that the main thread
+/// edits IN PLACE between rounds (moves only: storage address and count() stay the same).  Whatever a
+/// reader thread may have remembered from an earlier round must not show in a later one.
+fn persistent_phase(seed: u64, arenas: u64, threads: usize, len: usize, max_live: usize) -> (u64, u64, String) {
+    use ixv::exec::{guarded, State};
+    use ixv::gen::{Gen, GenCfg, Persona};
+    use ixv::ops::Op;
+    use ixv::rng::{Digest, Rng};
+    use std::sync::{mpsc, Arc, RwLock};
+    let shared: Arc<RwLock<State<Plain>>> = Arc::new(RwLock::new(State::new()));
+    let (rtx, rrx) = mpsc::channel::<(usize, Digest, bool)>();
+    let mut txs = Vec::new();
+    let mut handles = Vec::new();
+    for t in 0..threads {
+        let (tx, rx) = mpsc::channel::<u64>();
+        txs.push(tx);
+        let sh = shared.clone();
+        let rtx = rtx.clone();
+        handles.push(std::thread::spawn(move || {
+            while let Ok(round_seed) = rx.recv() {
+                if round_seed == u64::MAX {
+                    break;
+                }
+                let g = sh.read().unwrap();
+                let r = guarded(|| read_battery(&g.arena, round_seed ^ (t as u64 + 1), &|| ()));
+                drop(g);
+                let failed = r.is_err();
+                let _ = rtx.send((t, r.unwrap_or_default(), failed));
+            }
+        }));
+    }
+    let mut rounds = 0u64;
+    let mut mismatches = 0u64;
+    let mut detail = String::new();
+    'outer: for ai in 0..arenas {
+        {
+            let mut w = shared.write().unwrap();
+            *w = build_shared(seed, 5000 + ai, len, max_live);
+        }
+        let mut rng = Rng::derive(seed, 181, ai);
+        let mut gen = Gen::new(GenCfg::small(), Persona::Chains);
+        gen.cfg.impossible = false;
+        gen.cfg.removed_args = false;
+        for round in 0..4u64 {
+            if round > 0 {
+                let mut w = shared.write().unwrap();
+                let mut done = 0;
+                for _ in 0..60 {
+                    let op = gen.next_op(&mut rng, &w.model);
+                    if matches!(op, Op::Ins { .. } | Op::Detach(_)) {
+                        let info = w.step(&op);
+                        if info.diverged {
+                            break 'outer; // another property's business; nothing to compare against
+                        }
+                        done += 1;
+                        if done >= 6 {
+                            break;
+                        }
+                    }
+                }
+            }
+            let base = {
+                let g = shared.read().unwrap();
+                match guarded(|| read_battery(&g.arena, 0, &|| ())) {
+                    Ok(d) => d,
+                    Err(_) => {
+                        mismatches += 1;
+                        if detail.is_empty() {
+                            detail = format!("persistent readers, arena #{} round {}: the editing thread's own read-back panicked", ai, round);
+                        }
+                        break 'outer;
+                    }
+                }
+            };
+            for tx in &txs {
+                let _ = tx.send(seed ^ (ai << 24) ^ (round << 12) ^ 0x55);
+            }
+            for _ in 0..threads {
+                if let Ok((t, d, failed)) = rrx.recv_timeout(std::time::Duration::from_secs(120)) {
+                    rounds += 1;
+                    if failed || d != base {
+                        mismatches += 1;
+                        if detail.is_empty() {
+                            detail = format!("long-lived reader thread {} , arena #{} after {} in-place edit rounds: digest {} != digest {} read by the editing thread{}", t, ai, round, d.hex(), base.hex(), if failed { " (reader panicked)" } else { "" });
+                        }
+                    }
+                }
+            }
+            #[cfg(feature = "par_iter")]
+            {
+                use rayon::prelude::*;
+                let g = shared.read().unwrap();
+                let a = &g.arena;
+                let seq: Vec<(usize, usize, usize)> = a.iter().filter(|n| !n.is_removed()).map(|n| {
+                    let id = a.get_node_id(n).unwrap();
+                    (id.following_siblings(a).rev().count(), id.preceding_siblings(a).rev().map(usize::from).sum::<usize>(), id.following_siblings(a).map(usize::from).sum::<usize>())
+                }).collect();
+                let par: Vec<(usize, usize, usize)> = a.par_iter().filter(|n| !n.is_removed()).map(|n| {
+                    let id = a.get_node_id(n).unwrap();
+                    (id.following_siblings(a).rev().count(), id.preceding_siblings(a).rev().map(usize::from).sum::<usize>(), id.following_siblings(a).map(usize::from).sum::<usize>())
+                }).collect();
+                rounds += 1;
+                if par != seq {
+                    mismatches += 1;
+                    if detail.is_empty() {
+                        detail = format!("rayon workers, arena #{} after {} in-place edit rounds: sibling traversals inside par_iter differ from the sequential ones", ai, round);
+                    }
+                }
+            }
+        }
+    }
+    for tx in &txs {
+        let _ = tx.send(u64::MAX);
+    }
+    for h in handles {
+        let _ = h.join();
+    }
+    (rounds, mismatches, detail)
+}
+
 fn main() {
     let args: Vec<String> = std::env::args().collect();
     let seed: u64 = arg(&args, "--seed").and_then(|s| s.parse().ok()).unwrap_or(1);
@@ -118,11 +238,17 @@ fn main() {
             }
         }
     }
+    let (p_rounds, p_mism, p_detail) = persistent_phase(seed, (arenas / 2).max(1), threads.min(8), len, max_live);
+    mismatches += p_mism;
+    reads += p_rounds;
+    if first_detail.is_empty() {
+        first_detail = p_detail;
+    }
     if mismatches > 0 {
         println!("READERS-FINDING {}", first_detail);
     }
     println!(
-        "{{\"arenas\":{},\"reader_runs\":{},\"threads\":{},\"distinct_interleaving_signatures\":{},\"distinct_arena_shapes\":{},\"live_nodes_total\":{},\"par_iter_comparisons\":{},\"mismatches\":{}}}",
+        "{{\"arenas\":{},\"reader_runs\":{},\"threads\":{},\"distinct_interleaving_signatures\":{},\"distinct_arena_shapes\":{},\"live_nodes_total\":{},\"par_iter_comparisons\":{},\"reads_by_long_lived_threads_after_in_place_edits\":{},\"mismatches\":{}}}",
         arenas,
         reads,
         threads,
@@ -130,6 +256,7 @@ fn main() {
         shapes.len(),
         nodes_total,
         par_cmp,
+        p_rounds,
         mismatches
     );
     if mismatches > 0 {
